@@ -35,6 +35,19 @@ ASSUMPTIONS = ["FlatMap iteration yields every entry once"]
 V = r"^clap_builder::parser::validator::"
 
 
+def explicit_guards(psc, c):
+    """Boolean guards of call c, with `source != ValueSource::DefaultValue` normalised to `is_explicit(source)`."""
+    gl = [g for g in guard_strs(psc, c.bb) if re.match(r"^[TF]:", g)]
+    if len(gl) == 1 and re.match(r"^[TF]:(eq|ne)\(", gl[0]):
+        for e_ in psc.calls_to(r"PartialEq(<[^>]*>)?>?::(eq|ne)$"):
+            other = e_.args[1] if expr(psc, e_.args[0]) == "source" else e_.args[0]
+            br = psc.call_branch(e_)
+            neq = e_.callee_q.endswith("::ne")
+            if br and "DefaultValue" in (agg_variants(psc, other) or []) and psc.edge_dominates((br[0], br[1] if neq else br[2]), c.bb):
+                gl = ["T:is_explicit(source)"]
+    return gl
+
+
 def chain_filters(fx, body, call):
     """Closure bodies of Iterator::filter calls that the iterator produced by `call` flows through."""
     t = taint_forward(body, [pl_local(call.dest)], call_transfer=lambda c, ta: 0 in ta)
@@ -363,6 +376,6 @@ def run(ctx):
     grp = psc.calls_to(r"ArgMatcher::start_custom_group$")
     require(fx, res, "R3.9", "groups-recorded", psc, r"ArgMatcher::start_custom_group$", len(grp), 1, "start_custom_arg no longer records the groups of a present argument")
     for c in grp:
-        gl = [g for g in guard_strs(psc, c.bb) if re.match(r"^[TF]:", g)]
+        gl = explicit_guards(psc, c)
         res.check(gl == ["T:is_explicit(source)"], "R3.9", "groups-present-for-every-explicit-source", c.where(), "groups recorded exactly when the source is explicit (command line or environment)",
                   "a group is marked present only under %s: a member supplied through its environment variable is explicitly present but conflicts_with(group) / ArgGroup::requires are not enforced for it" % gl)
